@@ -32,7 +32,8 @@ MONITORS = ["detection", "loaded_content", "mutate_output", "mutate_backup", "in
             "trace_write_opens", "clash_refused_before_io", "second_mutate_idempotent", "decode_error"]
 REQUIRED = ["detected_utf-8", "detected_cp1252", "detected_cp932", "detected_cp949", "undecodable", "custom_try_encodings",
             "explicit_encoding", "native", "memory", "backup_and_output", "valid_under_several", "edit_changes_chart_in_place",
-            "same_path_opened_twice_different_lists", "multibyte_char_straddles_1024", "output_and_backup_equal_input", "no_song_level_property"]
+            "same_path_opened_twice_different_lists", "multibyte_char_straddles_1024", "output_and_backup_equal_input", "no_song_level_property",
+            "file_ends_with_non_ascii_character"]
 
 DEFAULT = ["utf-8", "cp1252", "cp932", "cp949"]
 SAMPLES = {
@@ -86,6 +87,9 @@ def gen_content(rng, ext):
         else:
             lines.append(f"#NOTES:{nl}     dance-single:{nl}     {_esc(pick())}:{nl}     Hard:{nl}     9:{nl}     0,0:{nl}0000{nl}0001{nl}1000{nl}0000{nl};")
     text = nl.join(lines) + nl
+    if rng.random() < 0.2:
+        # the very last byte(s) of the file belong to a non-ASCII character: the last parameter has no ';'
+        text = text + "#LAST:" + rng.choice(SAMPLES[enc_w])
     r = rng.random()
     if r < 0.04:
         text = ""                                                   # an empty file
@@ -259,6 +263,8 @@ def check(ctx, case):
             data[:1024].decode(content["enc"])
         except UnicodeDecodeError:
             ctx.feat("multibyte_char_straddles_1024")
+    if data and data[-1] >= 0x80:
+        ctx.feat("file_ends_with_non_ascii_character")
     if case["output"] and case["backup"] == "=input":
         ctx.feat("output_and_backup_equal_input")
     decodes = [e for e in DEFAULT if ref_detect(data, [e])]
